@@ -63,3 +63,45 @@ Lemma cl_rbinop_scalar_law : forall B o la s st,
   bind (mapM (fun y => list_binop (scalar_binop B o) (Scalar s) y (kind_of y)) la)
        (fun r => ret (Lst r)) st.
 Proof. intros. unfold cl_rbinop. rewrite list_binop_eq. reflexivity. Qed.
+
+(* ---- conversion to audio rate is element-wise ------------------------------------------------ *)
+Lemma as_audio_go_mapM : forall dc k2a l st,
+  (fix go (l : list arg) : M (list arg) :=
+     match l with
+     | [] => ret []
+     | x :: r => bind (as_audio dc k2a x) (fun x' => bind (go r) (fun r' => ret (x' :: r')))
+     end) l st = mapM (as_audio dc k2a) l st.
+Proof.
+  intros dc k2a. induction l as [|x r IH]; intros st; [reflexivity|].
+  cbn [mapM]. unfold bind. destruct (as_audio dc k2a x st) as [x' s1|e]; [|reflexivity].
+  rewrite IH. reflexivity.
+Qed.
+Lemma as_audio_lst : forall dc k2a l st,
+  as_audio dc k2a (Lst l) st = bind (mapM (as_audio dc k2a) l) (fun l' => ret (Lst l')) st.
+Proof. intros. cbn [as_audio]. unfold bind at 1. rewrite as_audio_go_mapM. reflexivity. Qed.
+Lemma as_audio_tuple : forall dc k2a l st,
+  as_audio dc k2a (Tuple l) st = bind (mapM (as_audio dc k2a) l) (fun l' => ret (Tuple l')) st.
+Proof. intros. cbn [as_audio]. unfold bind at 1. rewrite as_audio_go_mapM. reflexivity. Qed.
+Lemma as_audio_unit : forall dc k2a u c st,
+  as_audio dc k2a (Scalar (U u c)) st =
+  match unit_rate st u with
+  | RAudio => Ok (Scalar (U u c)) st
+  | _ => Ok (Scalar (U (length st) 0)) (st ++ [mkUnit k2a [Scalar (U u c)]])
+  end.
+Proof. intros. cbn [as_audio]. destruct (unit_rate st u); reflexivity. Qed.
+Lemma as_audio_number : forall dc k2a z st,
+  as_audio dc k2a (Scalar (K z)) st = Ok (Scalar (U (length st) 0)) (st ++ [mkUnit dc [Scalar (K z)]]).
+Proof. reflexivity. Qed.
+
+Lemma audio_in_ctor_lst : forall dc k2a cls before l after st,
+  audio_in_ctor dc k2a cls before (Lst l) after st =
+  bind (mapM (as_audio dc k2a) l)
+       (fun l' => multi_new (new1_plain cls 1) (before ++ Lst l' :: after)) st.
+Proof.
+  intros. unfold audio_in_ctor. unfold bind at 1. rewrite as_audio_lst. unfold bind.
+  destruct (mapM (as_audio dc k2a) l st); reflexivity.
+Qed.
+Lemma as_audio_elementwise : forall dc k2a l st,
+  as_audio dc k2a (Lst l) st = bind (mapM (as_audio dc k2a) l) (fun l' => ret (Lst l')) st /\
+  as_audio dc k2a (Tuple l) st = bind (mapM (as_audio dc k2a) l) (fun l' => ret (Tuple l')) st.
+Proof. intros; split; [apply as_audio_lst|apply as_audio_tuple]. Qed.
